@@ -26,7 +26,7 @@ func init() {
 			"(X6) an element is left out only when its value is absent: whenever a single field of the value is set the element's own start token (the wrapper of a block, the element of a type with MarshalXML) is written on every path, and a nil block writes nothing and dereferences nothing. " +
 			"Types without a hand-written marshaller are written and read by the same tags and are symmetric by construction of encoding/xml (tag well-formedness is C03.T1). " +
 			"NOT decided: equality of values after the trip (time precision, float formatting, strings XML cannot represent), diff create actions holding several elements, allocated-but-empty containers.",
-		Assumptions: []string{"go/types (x/tools v0.29.0)", "documented naming rules of encoding/xml marshalValue/defaultStart (re-implemented in rules/c03_xmlmodel.go)", "the path-enumerating abstract interpreter of rules/c03_eval.go (one iteration per loop, lists built on the path unrolled, calls outside the repository opaque; Encoder calls are assumed to succeed)", "tables/osmxml.json for document root names"},
+		Assumptions: []string{"go/types (x/tools v0.29.0)", "documented naming rules of encoding/xml marshalValue/defaultStart (re-implemented in rules/c03_xmlmodel.go)", "the path-enumerating abstract interpreter of rules/c03_eval.go (one iteration per loop, lists built on the path and counted loops unrolled, closures / deferred calls / pointers to fields / unexported dispatch tables followed, calls outside the repository opaque, goroutines / goto / generic functions / unknown call targets make the exploration undecided; Encoder calls are assumed to succeed)", "tables/osmxml.json for document root names"},
 		LevelText:   "Structural necessary conditions: every element/attribute name the hand-written XML writers emit equals the name the library's own tags (or custom decoders) read it back under, for every field, under abstract inputs that set one field at a time; hand-written containers emit every field they can read and skip an element only when its value is absent. Value equality after the round trip is not decided.",
 		LevelNote:   "Trusts the type checker, the documented naming rules of encoding/xml and the abstract interpreter's modelling of the Go statements used by the writers (anything it does not model is reported as undecided); covers the hand-written writers of package osm (everything else is tag-driven both ways).",
 		Technique:   "abstract interpretation of the hand-written marshallers over a finite set of scenarios (which fields are empty), observing the Encoder calls with symbolic arguments; type-resolved model of encoding/xml element naming applied to each observed call; sibling agreement between marshal and unmarshal observations",
@@ -40,8 +40,8 @@ func init() {
 			{ID: "X6", Floor: 14, Doc: "an element is skipped only when its value is absent; a nil block writes and dereferences nothing (4 roots + 5 blocks written, 5 blocks absent)", Run: c04X6},
 			{ID: "X7", Floor: 3, Doc: "every XML marshaler (MarshalXML / MarshalXMLAttr / MarshalText) of the package has a value receiver, so that it is in the method set of T and *T and a value that is not addressable is still written in the documented form (5 today)", Run: c04X7},
 		},
-		Mutants: append(c04Mutants, core.Mutant{Name: "x7-date-marshalxml-pointer-receiver", File: "note.go", Find: "func (d Date) MarshalXML(", Replace: "func (d *Date) MarshalXML(", ExpectRule: "X7", ExpectConstruct: "receiver@Date.MarshalXML"}),
-		Benign:  c04Benign,
+		Mutants: append(append(append([]core.Mutant{}, c04Mutants...), c04Mutants2...), core.Mutant{Name: "x7-date-marshalxml-pointer-receiver", File: "note.go", Find: "func (d Date) MarshalXML(", Replace: "func (d *Date) MarshalXML(", ExpectRule: "X7", ExpectConstruct: "receiver@Date.MarshalXML"}),
+		Benign:  append(append([]core.Mutant{}, c04Benign...), c04Benign2...),
 	})
 }
 
